@@ -308,7 +308,13 @@ func TestReceiverReports(t *testing.T) {
 				seq = b.cursor
 			}
 			if b.m.started && seq-b.m.ext16 < 1<<15 && b.m.advance+int64(seq-b.m.ext16) > 8000 {
-				seq = b.m.ext16 + 1 // keep the span between two reports inside the 8192-packet history
+				// keep the span between two reports inside the 8192-packet history (the property's domain): the receiver of a
+				// stream that has advanced this far reports before it takes more packets
+				if b.m.advance >= 8000 {
+					doTick()
+					classes["forced-report-at-history-limit"] = true
+				}
+				seq = b.m.ext16 + 1
 			}
 			step := dt.Draw(t, "dt")
 			now = now.Add(step)
